@@ -25,33 +25,34 @@ import (
 )
 
 type c07Scenario struct {
-	Name      string  `json:"name"`
-	Full      bool    `json:"full_handshake"` // real Handshake() incl. the built-in poll goroutine
-	QType     uint16  `json:"qtype"`
-	Up        string  `json:"up_codec"`
-	Down      string  `json:"down_codec"`
-	UpFrag    uint32  `json:"up_frag"`
-	DownFrag  uint32  `json:"down_frag"`
-	StartC2S  uint16  `json:"start_seq_c2s"`
-	StartS2C  uint16  `json:"start_seq_s2c"`
-	BytesC2S  int64   `json:"bytes_c2s"`
-	BytesS2C  int64   `json:"bytes_s2c"`
-	Script    string  `json:"script"` // transparent | random | everyk | wraploss | bursts | dupstorm | replay
-	PLostQ    float64 `json:"p_query_lost"`
-	PLostA    float64 `json:"p_answer_lost"`
-	PDup      float64 `json:"p_dup"`
-	PReplay   float64 `json:"p_replay"`
-	MaxBurst  int     `json:"max_loss_burst"` // consecutive losses allowed by the script
-	K         int     `json:"k"`
-	LagMin    int     `json:"lag_min"`
-	LagMax    int     `json:"lag_max"`
-	WriteMode string  `json:"write_sizes"`
-	HitDir    string  `json:"hit_direction,omitempty"`      // script "exact": c2s | s2c
-	HitSeq    uint16  `json:"hit_seq,omitempty"`            // the packet whose exchange gets the fate
-	HitFate   string  `json:"hit_fate,omitempty"`           // query-lost | answer-lost | query-dup
-	HitTimes  int     `json:"hit_times,omitempty"`          // how many consecutive exchanges of that packet are hit (<=3)
-	DupCopies int     `json:"dup_copies_at_once,omitempty"` // >1: the copies of a duplicated query reach the server at the same time
-	Seed      int64   `json:"seed"`
+	Name       string  `json:"name"`
+	Full       bool    `json:"full_handshake"` // real Handshake() incl. the built-in poll goroutine
+	QType      uint16  `json:"qtype"`
+	Up         string  `json:"up_codec"`
+	Down       string  `json:"down_codec"`
+	UpFrag     uint32  `json:"up_frag"`
+	DownFrag   uint32  `json:"down_frag"`
+	StartC2S   uint16  `json:"start_seq_c2s"`
+	StartS2C   uint16  `json:"start_seq_s2c"`
+	BytesC2S   int64   `json:"bytes_c2s"`
+	BytesS2C   int64   `json:"bytes_s2c"`
+	Script     string  `json:"script"` // transparent | random | everyk | wraploss | bursts | dupstorm | replay
+	PLostQ     float64 `json:"p_query_lost"`
+	PLostA     float64 `json:"p_answer_lost"`
+	PDup       float64 `json:"p_dup"`
+	PReplay    float64 `json:"p_replay"`
+	MaxBurst   int     `json:"max_loss_burst"` // consecutive losses allowed by the script
+	K          int     `json:"k"`
+	LagMin     int     `json:"lag_min"`
+	LagMax     int     `json:"lag_max"`
+	WriteMode  string  `json:"write_sizes"`
+	HitDir     string  `json:"hit_direction,omitempty"`      // script "exact": c2s | s2c
+	HitSeq     uint16  `json:"hit_seq,omitempty"`            // the packet whose exchange gets the fate
+	HitFate    string  `json:"hit_fate,omitempty"`           // query-lost | answer-lost | query-dup
+	HitTimes   int     `json:"hit_times,omitempty"`          // how many consecutive exchanges of that packet are hit (<=3)
+	DupCopies  int     `json:"dup_copies_at_once,omitempty"` // >1: the copies of a duplicated query reach the server at the same time
+	ZeroWrites bool    `json:"zero_length_writes,omitempty"` // every 13th Write of either side is preceded by a Write of no bytes
+	Seed       int64   `json:"seed"`
 }
 
 func c07Codec(name string) enc.Encoder {
@@ -424,7 +425,15 @@ func c07Run(rec *vcommon.Rec, sc *c07Scenario) {
 		wr := vcommon.NewRand(sc.Seed, "c07w/"+sc.Name+tag)
 		next := c07WriteSizes(sc.WriteMode, frag, wr)
 		var off int64
-		for off < atomic.LoadInt64(&d.total) && atomic.LoadInt32(&stop) == 0 {
+		for i := 0; off < atomic.LoadInt64(&d.total) && atomic.LoadInt32(&stop) == 0; i++ {
+			if sc.ZeroWrites && i%13 == 5 {
+				// a Write of no bytes moves nothing and must not disturb anything (net.Conn allows it)
+				if n, err := w.Write([]byte{}); n != 0 || (err != nil && isolated) {
+					fail(d.name+":zero-length-write-misbehaves", map[string]interface{}{"n": n, "err": fmt.Sprint(err)})
+					return
+				}
+				rec.Stat("zero_length_writes", 1)
+			}
 			sz := int64(next())
 			if tot := atomic.LoadInt64(&d.total); off+sz > tot {
 				sz = tot - off
@@ -652,6 +661,7 @@ func c07Scenarios(rec *vcommon.Rec) []*c07Scenario {
 	var out []*c07Scenario
 	add := func(sc c07Scenario) {
 		sc.Seed = rec.Seed()*1000 + int64(len(out))
+		sc.ZeroWrites = len(out)%2 == 1
 		sc.Name = fmt.Sprintf("%02d-%s", len(out), sc.Script)
 		if sc.Script == "exact" {
 			sc.Name += fmt.Sprintf("-%s-%s-%d-x%d", sc.HitDir, sc.HitFate, sc.HitSeq, sc.HitTimes)
